@@ -12,10 +12,17 @@
      packages, no module on the path defines a class named like the next segment, root.tgt defines class C.
    * side conditions are decidable booleans: [pkg_okb] (segments are ASCII identifiers, no upper-case letter, no keyword),
      [type_okb] (non-empty, no newline, no '.' before the first upper-case letter).  Where the pinned code violates the
-     statement without them there is a [_refuted] theorem with the witness. *)
-From BP Require Import Base.Prelude Spec.PyImport Model.Importing.
+     statement without them there is a [_refuted] theorem with the witness.
+   * second half of the file (K32): the same annotation evaluated with a CLASS namespace in scope (Spec/PyImportLocals.v:
+     [denotes_with_locals w P names ref v], [names] = keys of vars(cls)), as typing.get_type_hints(cls) with default localns and
+     pydantic's dataclass decorator do; betterproto itself passes an empty locals mapping ([betterproto_hint], Model/C13Hints.v).
+     [via_name snake cur tgt C] (Proofs/ImportingP7.v) is the first name of the annotation by relative position [rel_of cur tgt]:
+     the class name inside one package, otherwise the import alias.  Field names are values of the casing model's
+     safe_snake_case (Model/Casing.v = pythonize_field_name), written [Casing.safe_snake_case]. *)
+From BP Require Import Base.Prelude Spec.PyImport Spec.PyImportLocals Model.Importing Model.C13Hints.
 From BP Require Import Proofs.ImportingP Proofs.ImportingP2 Proofs.ImportingP3 Proofs.ImportingP4 Proofs.ImportingP5 Proofs.ImportingP6.
-From BP Require gen.C13Tables.
+From BP Require Import Proofs.ImportingP7 Proofs.ImportingP8 Proofs.ImportingP9 Proofs.ImportingP10.
+From BP Require gen.C13Tables Model.Casing.
 
 (* The main theorem: EVERY pair of package paths, of any depth (same / descendant / ancestor / root / sibling / cousin are
    the cases of its proof), every well-formed (nested) type name: the returned pair denotes the class of the target package. *)
@@ -233,3 +240,366 @@ Theorem C13_digit_alias_refuted :
     alias_of s1 = alias_of s2 /\ s1 <> s2.
 Proof. exact digit_alias_refuted. Qed.
 Print Assumptions C13_digit_alias_refuted.
+
+(* ======================================================================================================================
+   K32: the annotation evaluated with the class namespace in scope (typing.get_type_hints(cls, globalns) / pydantic)
+   ====================================================================================================================== *)
+
+(* the specification itself: class-scoped evaluation = module-level evaluation unless the FIRST name of the expression is a key
+   of the class namespace, in which case it denotes no module / class at all; an empty namespace is Spec/PyImport.v's resolve *)
+Theorem C13_locals_spec :
+  forall (w : world) (P : list (list byte)) (e : env) (names : list (list byte)) (expr : list byte),
+    resolve_with_locals w P e names expr =
+    match expr_head expr with
+    | Some h => if mem_name h names then None else resolve w P e expr
+    | None => None
+    end.
+Proof. exact resolve_with_locals_char. Qed.
+Print Assumptions C13_locals_spec.
+
+Theorem C13_locals_nil_is_module :
+  forall (w : world) (P : list (list byte)) (ref : list byte * option (list byte)) (v : value),
+    denotes_with_locals w P [] ref v <-> denotes w P ref v.
+Proof. exact denotes_with_locals_nil. Qed.
+Print Assumptions C13_locals_nil_is_module.
+
+(* the name each reference goes through, for EVERY pair of package paths (same hypotheses as C13_resolves) *)
+Theorem C13_reference_head :
+  forall (cls_name snake optional : list byte -> list byte),
+    (forall s, ident_chars (snake s)) ->
+  forall (cur tgt : list (list byte)) (T : list byte) (unwrap pydantic : bool),
+    pkg_okb cur = true -> pkg_okb tgt = true -> type_okb T = true ->
+    path_eqb (firstn 1 tgt) [s_betterproto] = false ->
+    path_eqb tgt google_protobuf = false ->
+    identb (cls_name T) = true ->
+    annotation_head (fst (get_type_reference cls_name snake optional (py_join b_dot cur) (b_dot :: py_join b_dot (tgt ++ [T])) unwrap pydantic))
+    = Some (via_name snake cur tgt (cls_name T)).
+Proof. exact gtr_head. Qed.
+Print Assumptions C13_reference_head.
+
+(* THE EXACT CONDITION, any pair of package paths, any class namespace: with [names] in scope the reference still denotes the
+   class C13_resolves says it denotes  IFF  the name it goes through is not a key of the class namespace *)
+Theorem C13_locals_exact :
+  forall (cls_name snake optional : list byte -> list byte),
+    (forall s, ident_chars (snake s)) ->
+  forall (w : world) (root cur tgt : list (list byte)) (T : list byte) (unwrap pydantic : bool) (names : list (list byte)),
+    root <> [] ->
+    pkg_okb cur = true -> pkg_okb tgt = true -> type_okb T = true ->
+    path_eqb (firstn 1 tgt) [s_betterproto] = false ->
+    path_eqb tgt google_protobuf = false ->
+    identb (cls_name T) = true ->
+    world_has w root tgt (cls_name T) ->
+    (denotes_with_locals w (root ++ cur) names
+       (get_type_reference cls_name snake optional (py_join b_dot cur) (b_dot :: py_join b_dot (tgt ++ [T])) unwrap pydantic)
+       (VCls (root ++ tgt) (cls_name T))
+     <-> mem_name (via_name snake cur tgt (cls_name T)) names = false).
+Proof. exact locals_exact. Qed.
+Print Assumptions C13_locals_exact.
+
+(* ... and when it is shadowed it denotes NOTHING (never a wrong class); no world hypothesis needed *)
+Theorem C13_locals_shadowed_none :
+  forall (cls_name snake optional : list byte -> list byte),
+    (forall s, ident_chars (snake s)) ->
+  forall (w : world) (P cur tgt : list (list byte)) (T : list byte) (unwrap pydantic : bool) (names : list (list byte)) (v : value),
+    pkg_okb cur = true -> pkg_okb tgt = true -> type_okb T = true ->
+    path_eqb (firstn 1 tgt) [s_betterproto] = false ->
+    path_eqb tgt google_protobuf = false ->
+    identb (cls_name T) = true ->
+    mem_name (via_name snake cur tgt (cls_name T)) names = true ->
+    ~ denotes_with_locals w P names
+        (get_type_reference cls_name snake optional (py_join b_dot cur) (b_dot :: py_join b_dot (tgt ++ [T])) unwrap pydantic) v.
+Proof. exact locals_shadowed_none. Qed.
+Print Assumptions C13_locals_shadowed_none.
+
+(* the same, as the value of the two executable evaluations the correspondence check runs on the real classes *)
+Theorem C13_class_scope_hint_exact :
+  forall (cls_name snake optional : list byte -> list byte),
+    (forall s, ident_chars (snake s)) ->
+  forall (w : world) (root cur tgt : list (list byte)) (T : list byte) (unwrap pydantic : bool) (cls_namespace : list (list byte)),
+    root <> [] ->
+    pkg_okb cur = true -> pkg_okb tgt = true -> type_okb T = true ->
+    path_eqb (firstn 1 tgt) [s_betterproto] = false ->
+    path_eqb tgt google_protobuf = false ->
+    identb (cls_name T) = true ->
+    world_has w root tgt (cls_name T) ->
+    class_scope_hint w (root ++ cur) cls_namespace
+      (get_type_reference cls_name snake optional (py_join b_dot cur) (b_dot :: py_join b_dot (tgt ++ [T])) unwrap pydantic)
+    = if mem_name (via_name snake cur tgt (cls_name T)) cls_namespace then None else Some (VCls (root ++ tgt) (cls_name T)).
+Proof. exact class_scope_hint_exact. Qed.
+Print Assumptions C13_class_scope_hint_exact.
+
+(* betterproto's own resolution (Message._type_hints: empty locals) does not depend on the class namespace at all *)
+Theorem C13_module_resolution_unaffected :
+  forall (cls_name snake optional : list byte -> list byte),
+    (forall s, ident_chars (snake s)) ->
+  forall (w : world) (root cur tgt : list (list byte)) (T : list byte) (unwrap pydantic : bool) (cls_namespace : list (list byte)),
+    root <> [] ->
+    pkg_okb cur = true -> pkg_okb tgt = true -> type_okb T = true ->
+    path_eqb (firstn 1 tgt) [s_betterproto] = false ->
+    path_eqb tgt google_protobuf = false ->
+    identb (cls_name T) = true ->
+    world_has w root tgt (cls_name T) ->
+    betterproto_hint w (root ++ cur) cls_namespace
+      (get_type_reference cls_name snake optional (py_join b_dot cur) (b_dot :: py_join b_dot (tgt ++ [T])) unwrap pydantic)
+    = Some (VCls (root ++ tgt) (cls_name T)).
+Proof. exact module_resolution_unaffected. Qed.
+Print Assumptions C13_module_resolution_unaffected.
+
+(* ---- which shapes can collide with a FIELD of the message (fields = safe_snake_case of the proto field names) ---- *)
+
+(* the casing model's safe_snake_case satisfies the hypothesis the theorems make about [snake] *)
+Theorem C13_field_name_ident_chars : forall s : list byte, ident_chars (Casing.safe_snake_case s).
+Proof. exact field_name_ident_chars. Qed.
+Print Assumptions C13_field_name_ident_chars.
+
+(* ANY string: its pythonised field name contains no two consecutive underscores ... *)
+Theorem C13_field_name_no_double_underscore : forall s : list byte, double_us (Casing.safe_snake_case s) = false.
+Proof. exact safe_snake_no_double_us. Qed.
+Print Assumptions C13_field_name_no_double_underscore.
+
+(* ... whereas the ancestor / root / cousin aliases all end in "__": these shapes can NEVER collide with a field *)
+Theorem C13_upward_alias_double_underscore :
+  forall (snake : list byte -> list byte) (cur tgt : list (list byte)) (C : list byte),
+    rel_of cur tgt = RAnc \/ rel_of cur tgt = RRoot \/ rel_of cur tgt = RCousin ->
+    double_us (via_name snake cur tgt C) = true.
+Proof. exact via_name_double_us. Qed.
+Print Assumptions C13_upward_alias_double_underscore.
+
+(* ... and a class name (upper-case or digit initial) is never a pythonised field name: same-package references cannot collide *)
+Theorem C13_class_name_not_field :
+  forall (C : list byte) (protos : list (list byte)),
+    cls_startb C = true -> mem_name C (map Casing.safe_snake_case protos) = false.
+Proof. exact not_field_of_cls. Qed.
+Print Assumptions C13_class_name_not_field.
+
+(* hence, for the namespace made of the message's FIELDS: exact condition = "descendant -> no field is called like the alias" *)
+Theorem C13_locals_fields_exact :
+  forall (cls_name snake optional : list byte -> list byte),
+    (forall s, ident_chars (snake s)) ->
+  forall (w : world) (root cur tgt : list (list byte)) (T : list byte) (unwrap pydantic : bool) (protos : list (list byte)),
+    root <> [] ->
+    pkg_okb cur = true -> pkg_okb tgt = true -> type_okb T = true ->
+    path_eqb (firstn 1 tgt) [s_betterproto] = false ->
+    path_eqb tgt google_protobuf = false ->
+    identb (cls_name T) = true -> cls_startb (cls_name T) = true ->
+    world_has w root tgt (cls_name T) ->
+    (denotes_with_locals w (root ++ cur) (map Casing.safe_snake_case protos)
+       (get_type_reference cls_name snake optional (py_join b_dot cur) (b_dot :: py_join b_dot (tgt ++ [T])) unwrap pydantic)
+       (VCls (root ++ tgt) (cls_name T))
+     <-> (rel_of cur tgt = RDesc ->
+          mem_name (py_join b_us (skipn (length cur) tgt)) (map Casing.safe_snake_case protos) = false)).
+Proof. exact locals_fields_exact. Qed.
+Print Assumptions C13_locals_fields_exact.
+
+Theorem C13_locals_fields_upward :
+  forall (cls_name snake optional : list byte -> list byte),
+    (forall s, ident_chars (snake s)) ->
+  forall (w : world) (root cur tgt : list (list byte)) (T : list byte) (unwrap pydantic : bool) (protos : list (list byte)),
+    root <> [] ->
+    pkg_okb cur = true -> pkg_okb tgt = true -> type_okb T = true ->
+    path_eqb (firstn 1 tgt) [s_betterproto] = false ->
+    path_eqb tgt google_protobuf = false ->
+    identb (cls_name T) = true -> cls_startb (cls_name T) = true ->
+    world_has w root tgt (cls_name T) ->
+    rel_of cur tgt <> RDesc ->
+    denotes_with_locals w (root ++ cur) (map Casing.safe_snake_case protos)
+      (get_type_reference cls_name snake optional (py_join b_dot cur) (b_dot :: py_join b_dot (tgt ++ [T])) unwrap pydantic)
+      (VCls (root ++ tgt) (cls_name T)).
+Proof. exact locals_fields_upward. Qed.
+Print Assumptions C13_locals_fields_upward.
+
+(* the descendant aliases `x` / `x_y` ARE field names: of the proto field called exactly like the alias (plain segments) ... *)
+Theorem C13_desc_alias_is_field_name :
+  forall rest : list (list byte),
+    rest <> [] -> plain_pkgb rest = true -> Casing.safe_snake_case (py_join b_us rest) = py_join b_us rest.
+Proof. exact desc_alias_is_field_name. Qed.
+Print Assumptions C13_desc_alias_is_field_name.
+
+(* ... so EVERY plain descendant reference has a colliding message: one with a proto field named like the alias *)
+Theorem C13_desc_field_collides :
+  forall (cls_name snake optional : list byte -> list byte),
+    (forall s, ident_chars (snake s)) ->
+  forall (w : world) (P cur rest : list (list byte)) (T : list byte) (unwrap pydantic : bool) (protos : list (list byte)) (v : value),
+    plain_pkgb cur = true -> plain_pkgb rest = true -> rest <> [] -> type_okb T = true ->
+    path_eqb (cur ++ rest) google_protobuf = false ->
+    identb (cls_name T) = true ->
+    In (py_join b_us rest) protos ->
+    ~ denotes_with_locals w P (map Casing.safe_snake_case protos)
+        (get_type_reference cls_name snake optional (py_join b_dot cur) (b_dot :: py_join b_dot ((cur ++ rest) ++ [T])) unwrap pydantic) v.
+Proof. exact desc_field_collides. Qed.
+Print Assumptions C13_desc_field_collides.
+
+(* K32, the witness: package shop, `shop.item.Item item = 1;` -> `from . import item`, `item: "item.Item"`; computed with the
+   casing MODELS (PAS = Casing.pascal_case, FLD = Casing.safe_snake_case).  Every side condition of C13_resolves holds, the
+   module-level evaluation (betterproto's) yields the class, the class-scoped one (pydantic's) denotes nothing. *)
+Theorem C13_locals_shadow_refuted :
+  exists (w : world) (root cur tgt : list (list byte)) (T : list byte) (protos : list (list byte)),
+    root <> [] /\ pkg_okb cur = true /\ pkg_okb tgt = true /\ type_okb T = true /\
+    path_eqb (firstn 1 tgt) [s_betterproto] = false /\ path_eqb tgt google_protobuf = false /\
+    identb (PAS T) = true /\ cls_startb (PAS T) = true /\ world_has w root tgt (PAS T) /\
+    gtr_m cur tgt T true
+      = (quoted [x69; x74; x65; x6d; x2e; x49; x74; x65; x6d],
+         Some [x66; x72; x6f; x6d; x20; x2e; x20; x69; x6d; x70; x6f; x72; x74; x20; x69; x74; x65; x6d]) /\
+    map FLD protos = [[x69; x74; x65; x6d]] /\
+    rel_of cur tgt = RDesc /\ via_name FLD cur tgt (PAS T) = [x69; x74; x65; x6d] /\
+    denotes w (root ++ cur) (gtr_m cur tgt T true) (VCls (root ++ tgt) (PAS T)) /\
+    betterproto_hint w (root ++ cur) (map FLD protos) (gtr_m cur tgt T true) = Some (VCls (root ++ tgt) (PAS T)) /\
+    class_scope_hint w (root ++ cur) (map FLD protos) (gtr_m cur tgt T true) = None /\
+    (forall v, ~ denotes_with_locals w (root ++ cur) (map FLD protos) (gtr_m cur tgt T true) v).
+Proof. exact locals_shadow_refuted. Qed.
+Print Assumptions C13_locals_shadow_refuted.
+
+(* the class namespace holds more than the fields: `__doc__`, `__module__` are keys of vars(cls) of EVERY class, and the
+   ancestor alias of a package called doc / module, one level up, is exactly that name (no field involved) *)
+Theorem C13_locals_dunder_refuted :
+  exists (w : world) (root cur tgt : list (list byte)) (T : list byte) (cls_namespace : list (list byte)),
+    root <> [] /\ pkg_okb cur = true /\ pkg_okb tgt = true /\ type_okb T = true /\
+    path_eqb (firstn 1 tgt) [s_betterproto] = false /\ path_eqb tgt google_protobuf = false /\
+    identb (PAS T) = true /\ world_has w root tgt (PAS T) /\
+    cls_namespace = [s_dunder_module; s_dunder_doc] /\
+    rel_of cur tgt = RAnc /\ via_name FLD cur tgt (PAS T) = s_dunder_doc /\
+    fst (gtr_m cur tgt T true) = quoted (s_dunder_doc ++ b_dot :: PAS T) /\
+    betterproto_hint w (root ++ cur) cls_namespace (gtr_m cur tgt T true) = Some (VCls (root ++ tgt) (PAS T)) /\
+    class_scope_hint w (root ++ cur) cls_namespace (gtr_m cur tgt T true) = None.
+Proof. exact locals_dunder_refuted. Qed.
+Print Assumptions C13_locals_dunder_refuted.
+
+(* proposed finding K35: the service Base class writes the annotations of streaming rpcs UNQUOTED, so Python evaluates them inside
+   the class body, where __module__ / __qualname__ / __doc__ and the methods defined above are in scope: an rpc `Item` (method
+   `item`) above a streaming rpc over shop.item.Item shadows the alias `item` - the generated package fails at import in the
+   STANDARD variant.  (For the dunder names see C13_locals_dunder_refuted: packages doc / module referenced from a child.) *)
+Theorem C13_service_scope_refuted :
+  exists (w : world) (root cur tgt : list (list byte)) (T : list byte) (rpcs_above : list (list byte)) (cls_namespace : list (list byte)),
+    root <> [] /\ pkg_okb cur = true /\ pkg_okb tgt = true /\ type_okb T = true /\
+    path_eqb (firstn 1 tgt) [s_betterproto] = false /\ path_eqb tgt google_protobuf = false /\
+    identb (PAS T) = true /\ world_has w root tgt (PAS T) /\
+    rpcs_above = [t_Item] /\
+    cls_namespace = [s_dunder_module; s_dunder_qualname; s_dunder_doc] ++ map FLD rpcs_above /\
+    map FLD rpcs_above = [s_item] /\
+    via_name FLD cur tgt (PAS T) = s_item /\
+    betterproto_hint w (root ++ cur) cls_namespace (gtr_m cur tgt T false) = Some (VCls (root ++ tgt) (PAS T)) /\
+    class_scope_hint w (root ++ cur) cls_namespace (gtr_m cur tgt T false) = None.
+Proof. exact service_scope_refuted. Qed.
+Print Assumptions C13_service_scope_refuted.
+
+(* well-known types go through the absolute alias betterproto_lib[_pydantic]_google_protobuf: exact condition, and the witness
+   (a field called betterproto_lib_google_protobuf) *)
+Theorem C13_wellknown_locals_exact :
+  forall (cls_name snake optional : list byte -> list byte) (w : world) (P cur : list (list byte)) (T : list byte)
+         (unwrap pydantic : bool) (names : list (list byte)),
+    pkg_okb cur = true -> type_okb T = true ->
+    path_eqb cur google_protobuf = false ->
+    (if unwrap then early_return optional (b_dot :: py_join b_dot (google_protobuf ++ [T])) else None) = None ->
+    identb (cls_name T) = true ->
+    identb (snake (py_join b_dot (lib_path pydantic))) = true ->
+    w_pkg w (lib_path pydantic) = true -> w_cls w (lib_path pydantic) (cls_name T) = true ->
+    (denotes_with_locals w P names
+       (get_type_reference cls_name snake optional (py_join b_dot cur) (b_dot :: py_join b_dot (google_protobuf ++ [T])) unwrap pydantic)
+       (VCls (lib_path pydantic) (cls_name T))
+     <-> mem_name (snake (py_join b_dot (lib_path pydantic))) names = false).
+Proof. exact wellknown_locals_exact. Qed.
+Print Assumptions C13_wellknown_locals_exact.
+
+Theorem C13_wellknown_shadow_refuted :
+  exists (w : world) (P cur : list (list byte)) (T : list byte) (protos : list (list byte)),
+    pkg_okb cur = true /\ type_okb T = true /\ path_eqb cur google_protobuf = false /\
+    identb (PAS T) = true /\ identb (FLD (py_join b_dot (lib_path false))) = true /\
+    w_pkg w (lib_path false) = true /\ w_cls w (lib_path false) (PAS T) = true /\
+    map FLD protos = [FLD (py_join b_dot (lib_path false))] /\
+    FLD (py_join b_dot (lib_path false)) = s_bplgp /\
+    betterproto_hint w P (map FLD protos)
+      (get_type_reference PAS FLD OPT (py_join b_dot cur) (b_dot :: py_join b_dot (google_protobuf ++ [T])) true false)
+      = Some (VCls (lib_path false) (PAS T)) /\
+    class_scope_hint w P (map FLD protos)
+      (get_type_reference PAS FLD OPT (py_join b_dot cur) (b_dot :: py_join b_dot (google_protobuf ++ [T])) true false)
+      = None.
+Proof. exact wellknown_shadow_refuted. Qed.
+Print Assumptions C13_wellknown_shadow_refuted.
+
+(* ---- the parameter [snake] instantiated with the casing model (Model/Casing.v safe_snake_case; its hypothesis is
+        C13_field_name_ident_chars): the main theorem and the exact condition with one parameter less ---- *)
+Theorem C13_resolves_casing_model :
+  forall (cls_name optional : list byte -> list byte) (w : world) (root : list (list byte)), root <> [] ->
+  forall (cur tgt : list (list byte)) (T : list byte) (unwrap pydantic : bool),
+    pkg_okb cur = true -> pkg_okb tgt = true -> type_okb T = true ->
+    path_eqb (firstn 1 tgt) [s_betterproto] = false ->
+    path_eqb tgt google_protobuf = false ->
+    identb (cls_name T) = true ->
+    world_has w root tgt (cls_name T) ->
+    denotes w (root ++ cur)
+      (get_type_reference cls_name Casing.safe_snake_case optional (py_join b_dot cur) (b_dot :: py_join b_dot (tgt ++ [T])) unwrap pydantic)
+      (VCls (root ++ tgt) (cls_name T)).
+Proof. exact resolves_casing_model. Qed.
+Print Assumptions C13_resolves_casing_model.
+
+Theorem C13_locals_exact_casing_model :
+  forall (cls_name optional : list byte -> list byte) (w : world) (root cur tgt : list (list byte)) (T : list byte)
+         (unwrap pydantic : bool) (names : list (list byte)),
+    root <> [] ->
+    pkg_okb cur = true -> pkg_okb tgt = true -> type_okb T = true ->
+    path_eqb (firstn 1 tgt) [s_betterproto] = false ->
+    path_eqb tgt google_protobuf = false ->
+    identb (cls_name T) = true ->
+    world_has w root tgt (cls_name T) ->
+    (denotes_with_locals w (root ++ cur) names
+       (get_type_reference cls_name Casing.safe_snake_case optional (py_join b_dot cur) (b_dot :: py_join b_dot (tgt ++ [T])) unwrap pydantic)
+       (VCls (root ++ tgt) (cls_name T))
+     <-> mem_name (via_name Casing.safe_snake_case cur tgt (cls_name T)) names = false).
+Proof. exact locals_exact_casing_model. Qed.
+Print Assumptions C13_locals_exact_casing_model.
+
+(* ---- non-vacuity of the K32 theorems ---- *)
+(* C13_locals_exact / C13_locals_fields_exact / C13_locals_fields_upward: a cousin reference with a class namespace holding four
+   fields, two of them pythonised from the alias's own text; all hypotheses hold, the evaluation yields the class *)
+Example C13_locals_exact_nonvacuous :
+  (forall s, ident_chars (FLD s)) /\
+  [sr] <> [] /\ pkg_okb [sa; sb] = true /\ pkg_okb [sc; sd] = true /\ type_okb t_Foo_Bar = true /\
+  path_eqb (firstn 1 [sc; sd]) [s_betterproto] = false /\ path_eqb [sc; sd] google_protobuf = false /\
+  identb (PAS t_Foo_Bar) = true /\ cls_startb (PAS t_Foo_Bar) = true /\ world_has w_ex_m [sr] [sc; sd] (PAS t_Foo_Bar) /\
+  rel_of [sa; sb] [sc; sd] = RCousin /\ rel_of [sa; sb] [sc; sd] <> RDesc /\ via_name FLD [sa; sb] [sc; sd] (PAS t_Foo_Bar) = s_us_c_d_us /\
+  map FLD [s_us_c_d_us; s_c_d; s_item; PAS t_Foo_Bar] = [s_c_d; s_c_d; s_item; [x66; x6f; x6f; x5f; x62; x61; x72]] /\
+  mem_name (via_name FLD [sa; sb] [sc; sd] (PAS t_Foo_Bar)) (map FLD [s_us_c_d_us; s_c_d; s_item; PAS t_Foo_Bar]) = false /\
+  class_scope_hint w_ex_m [sr; sa; sb] (map FLD [s_us_c_d_us; s_c_d; s_item; PAS t_Foo_Bar]) (gtr_m [sa; sb] [sc; sd] t_Foo_Bar false)
+    = Some (VCls [sr; sc; sd] (PAS t_Foo_Bar)).
+Proof. exact locals_exact_example. Qed.
+
+(* descendant reference: condition true for fields [qty; shop], false once a proto field `Item` (-> item) is added *)
+Example C13_locals_fields_nonvacuous :
+  rel_of [s_shop] [s_shop; s_item] = RDesc /\
+  map FLD [s_qty; t_Item; s_shop] = [s_qty; s_item; s_shop] /\
+  mem_name (py_join b_us (skipn (length [s_shop]) [s_shop; s_item])) (map FLD [s_qty; s_shop]) = false /\
+  class_scope_hint w_shop [sr; s_shop] (map FLD [s_qty; s_shop]) (gtr_m [s_shop] [s_shop; s_item] t_Item true)
+    = Some (VCls [sr; s_shop; s_item] (PAS t_Item)) /\
+  mem_name (via_name FLD [s_shop] [s_shop; s_item] (PAS t_Item)) (map FLD [s_qty; t_Item; s_shop]) = true /\
+  class_scope_hint w_shop [sr; s_shop] (map FLD [s_qty; t_Item; s_shop]) (gtr_m [s_shop] [s_shop; s_item] t_Item true) = None.
+Proof. exact locals_fields_example. Qed.
+
+Example C13_desc_alias_nonvacuous :
+  plain_pkgb [sx] = true /\ plain_pkgb [sa; sb] = true /\ [sa; sb] <> [] /\ type_okb t_T = true /\
+  path_eqb ([sx] ++ [sa; sb]) google_protobuf = false /\ identb (PAS t_T) = true /\
+  In (py_join b_us [sa; sb]) [s_qty; [x61; x5f; x62]] /\
+  FLD (py_join b_us [sa; sb]) = [x61; x5f; x62] /\
+  fst (gtr_m [sx] [sx; sa; sb] t_T true) = quoted [x61; x5f; x62; x2e; x54].
+Proof. exact desc_alias_example. Qed.
+
+(* C13_field_name_no_double_underscore is about all strings; inputs that come close: __doc__, __, a__b, _1, is, "" *)
+Example C13_no_double_underscore_examples :
+  map FLD [s_dunder_doc; [x5f; x5f]; [x61; x5f; x5f; x62]; [x5f; x31]; [x69; x73]; []]
+  = [s_doc; [x5f]; [x61; x5f; x62]; [x5f; x31]; [x69; x73; x5f]; [x5f]].
+Proof. exact no_double_us_example. Qed.
+
+Example C13_wellknown_locals_nonvacuous :
+  pkg_okb [sa] = true /\ type_okb t_Struct = true /\ path_eqb [sa] google_protobuf = false /\
+  early_return OPT (b_dot :: py_join b_dot (google_protobuf ++ [t_Struct])) = None /\
+  identb (PAS t_Struct) = true /\
+  identb (FLD (py_join b_dot (lib_path false))) = true /\ identb (FLD (py_join b_dot (lib_path true))) = true /\
+  w_pkg w_wk (lib_path false) = true /\ w_cls w_wk (lib_path false) (PAS t_Struct) = true /\
+  w_pkg w_wk_p (lib_path true) = true /\ w_cls w_wk_p (lib_path true) (PAS t_Struct) = true /\
+  mem_name (FLD (py_join b_dot (lib_path false))) (map FLD [s_qty; s_item]) = false /\
+  class_scope_hint w_wk [sr; sa] (map FLD [s_qty; s_item])
+    (get_type_reference PAS FLD OPT (py_join b_dot [sa]) (b_dot :: py_join b_dot (google_protobuf ++ [t_Struct])) true false)
+    = Some (VCls (lib_path false) (PAS t_Struct)) /\
+  class_scope_hint w_wk_p [sr; sa] (map FLD [s_qty; s_item])
+    (get_type_reference PAS FLD OPT (py_join b_dot [sa]) (b_dot :: py_join b_dot (google_protobuf ++ [t_Struct])) true true)
+    = Some (VCls (lib_path true) (PAS t_Struct)).
+Proof. exact wellknown_locals_example. Qed.
